@@ -182,6 +182,11 @@ func c13(args []string) int {
 		{Name: "seeded/min3/burst-in-checkpoint", Cfg: cfgWith(func(c *scn.Config) { c.MinCheckpointPageN = 3 }), Alphabet: strings.Fields("W1 S SW LCB:PASSIVE LCB:PASSIVE:12 LCB:RESTART"), Depth: d(2, 4), Seeds: [][]string{strings.Fields("W3 SW"), strings.Fields("W1 S")}},
 		{Name: "seeded/min5-tr8/burst-in-checkpoint", Cfg: cfgWith(func(c *scn.Config) { c.MinCheckpointPageN = 5; c.TruncatePageN = 8 }), Alphabet: strings.Fields("W1 S SW LCB:PASSIVE LCB:PASSIVE:12"), Depth: d(2, 3), Seeds: [][]string{strings.Fields("W3 SW")}},
 	}
+	// a snapshot (or sync) whose upload fails, then ordinary writes: whatever the failed operation held must have
+	// been released, or every later checkpoint is skipped and the WAL grows (operation RF: one-shot upload failure)
+	rfCfg := cfgWith(func(c *scn.Config) { c.MinCheckpointPageN = 3; c.TruncatePageN = 12; c.ReplicaFaults = true })
+	burst = append(burst, Layer{Name: "seeded/min3-tr12/failed-upload-then-writes", Cfg: rfCfg, Alphabet: strings.Fields("FSNAP SNAP SW S W1 W3"), Depth: d(3, 4),
+		Seeds: [][]string{strings.Fields("W3 SW RF:before"), strings.Fields("W3 SW RF:mid"), strings.Fields("W3 SW W1 RF:mid")}})
 	layers = append(burst, layers...)
 	layers = append(layers,
 		Layer{Name: "exact/readers/min2", Cfg: cfgWith(func(c *scn.Config) { c.MinCheckpointPageN = 2; c.TruncatePageN = 6 }), Alphabet: alphaRd, Depth: d(4, 6)},
